@@ -97,7 +97,8 @@ func installerFaultBody(r *explore.Run, rep *report.R, sc string, cases []instCa
 	}
 
 	s := build()
-	inj := &xrh.FaultInjector{Run: r, Reads: true, NotFoundReads: true}
+	// Direct, uncached client: no spurious 404 reads (see faultBody).
+	inj := &xrh.FaultInjector{Run: r, Reads: true}
 	s.Inj = inj
 	inj.Armed = true
 	res1 := runInstaller(s)
